@@ -600,7 +600,8 @@ class Ghost:
                 elif self.rename_ok(fs, st[2], st[3]):
                     kd = fs.kind(st[3])
                     if (ino in dur.dirty or (kd == "file" and fs.lookup(st[3])[1] in dur.dirty)
-                            or any(r[0] == ino for r in self.pren) or st[3] in self.gone or st[3] in self.rtargets):
+                            or any(r[0] == ino and not (parent(r[1]) == parent(r[2]) == parent(st[3])) for r in self.pren)
+                            or st[3] in self.gone or st[3] in self.rtargets):
                         out.append("RenameFile")        # (a) (b) (d) (c)
             elif k == "dir":
                 out.append("RenameDir")
@@ -758,6 +759,8 @@ def history_features(case, obs=None, upto=None):
                 feats.add("CleanRename")
             if st[3] in gh.gdirs and Ghost.rename_ok(fs, st[2], st[3]):
                 feats.add("RenameOntoRemovedDir")
+            if any(r[0] == fs.lookup(st[2])[1] for r in gh.pren) and Ghost.rename_ok(fs, st[2], st[3]):
+                feats.add("ChainedRename")
         if name in ("rmdir", "rmdir_all") and fs.kind(st[2]) == "dir":
             feats.add("RemoveDir")
         if name == "sync_dir" and fs.kind(st[2]) == "dir" and any(
@@ -1451,14 +1454,14 @@ KNOWN_CLASSES = ["RootOp", "RenameSelf", "StaleHandle", "RenameDir", "RenameFile
 THEOREM_EXCLUDED = ["RootOp", "RenameSelf", "StaleHandle", "RenameDir", "RenameFileAny", "RecreateAny", "KindSwap"]
 # what the rename-inclusive theorems (Known.v: c07_crash_image_renames_partial, c10_refines_renames_partial)
 # exclude beyond the known classes
-RENAME_THEOREM_EXTRA = ["RecreateAny", "RenameOntoRemovedDir", "OneSidedFlush"]
+RENAME_THEOREM_EXTRA = ["RecreateAny", "RenameOntoRemovedDir", "OneSidedFlush", "ChainedRename"]
 
 
 def rename_theorem_side_condition(case, feats, unspecified=False):
     """python rendering of FsKnown.ksafe_enc for a one-host script: alphabet (no create_dir_all /
     remove_dir_all), no known class, none of the extra exclusions (any re-creation of a file name, a
     rename onto a removed directory's name, a sync_dir of exactly one of the two directories of an
-    unflushed rename), no crash on a dangling durable subtree"""
+    unflushed rename, a rename of a file that is still under an unflushed rename), no crash on a dangling durable subtree"""
     for st in case["steps"]:
         nm = st[0].split("@")[0]
         if nm in ("mkdir_all", "rmdir_all"):
@@ -1745,3 +1748,41 @@ def multi_host_crash(rng):
         cfg["drop_ops"] = [["spit", p, [200, 201, 202]] for p in rng.sample(FILES, 2)]
         fl += "+destructor-writes"
     return {"cfg": cfg, "steps": steps, "flavour": fl}
+
+
+def rename_chain_scenarios(rng, crash=True):
+    """Deterministic family: a data-synced file renamed twice or three times with no directory sync in
+    between (a -> b -> c, away and back a -> b -> a, onto an existing synced file), within one
+    directory, source entry durable or not; then observations, optional sync_dir / second handle
+    reads / unlink of the final name, and (crash=True variants) a crash and a dump."""
+    import itertools
+    out = []
+    chains = [["/d/a", "/d/b", "/d/c"], ["/d/a", "/d/b", "/d/a"], ["/d/a", "/d/b", "/d/c", "/d/e2"], ["/a", "/b", "/a", "/b"]]
+    for chain, durable, over, tail, crash in itertools.product(chains, (False, True), (False, True),
+                                                              ("none", "sync", "read", "unlink", "syncfile"),
+                                                              (False, True) if crash else (False,)):
+        par = parent(chain[0])
+        st = [["mkdir", 0, "/d"], ["sync_dir", 0, "/"], ["open", 0, 1, chain[0], "rwc"],
+              ["write_at", 0, 1, 0, rand_bytes(rng, 2, 5)], ["sync_all", 0, 1], ["close", 0, 1]]
+        if over and chain[-1] != chain[0]:
+            st += [["open", 0, 2, chain[-1], "rwc"], ["write_at", 0, 2, 0, rand_bytes(rng, 1, 3)], ["sync_all", 0, 2], ["close", 0, 2]]
+        if durable:
+            st.append(["sync_dir", 0, par])
+        for x, y in zip(chain, chain[1:]):
+            st.append(["rename", 0, x, y])
+        st += [["stat", 0, chain[-1]], ["slurp", 0, chain[-1]], ["readdir", 0, par]]
+        if tail == "sync":
+            st += [["sync_dir", 0, par], ["slurp", 0, chain[-1]]]
+        elif tail == "read":
+            st += [["open", 0, 3, chain[-1], "r"], ["read_at", 0, 3, 0, 8], ["flen", 0, 3]]
+        elif tail == "unlink":
+            st += [["unlink", 0, chain[-1]], ["readdir", 0, par], ["sync_dir", 0, par]]
+        elif tail == "syncfile":
+            st += [["open", 0, 3, chain[-1], "r"], ["sync_all", 0, 3], ["sync_dir", 0, par]]
+        st.append(["dump", 0])
+        if crash:
+            st += [["crash", 0], ["dump", 0], ["slurp", 0, chain[-1]]]
+        cfg = base_cfg(rng, 1)
+        cfg["universe"] = list(cfg["universe"]) + ["/d/c", "/d/e2"]
+        out.append({"cfg": cfg, "steps": st, "flavour": "rename-chain-scenario"})
+    return out
